@@ -431,24 +431,32 @@ func main() {
 	variants := []bcVariant{{name: "plain", bases: [][]int{{0}, {1}, {0, 1}}, unrelated: 2, ins: abg}}
 	// package i refers to Part of package j; the third package (which has its own Part) is unrelated
 	pkgNames := []string{"alpha", "beta", "gamma"}
-	for i := range pkgNames {
-		for j := range pkgNames {
-			if i == j {
-				continue
-			}
-			u := 3 - i - j
-			variants = append(variants, bcVariant{name: "xref " + pkgNames[i] + "->" + pkgNames[j], passes: "xref-" + pkgNames[i] + "-" + pkgNames[j] + ".yaml",
-				bases: [][]int{{j, i}, {i, j}}, unrelated: u, needs: map[int]int{i: j}, ins: abg})
+	// the referred object is a struct (Part) or an alias of a list / a map (Tags: some languages
+	// inline those at the places that refer to them)
+	for _, target := range []string{"Part", "Tags"} {
+		suffix, tsuffix := "", ""
+		if target != "Part" {
+			suffix, tsuffix = "-"+target, "."+target
 		}
-	}
-	// the referring package has no Part of its own (so nothing forces another name on the
-	// copy it gets) and sorts before / after the two others; the unrelated package has a Part
-	for _, rname := range []string{"aardvark", "zeta"} {
-		for _, su := range [][2]int{{0, 2}, {2, 0}} {
-			sIn, uIn := abg[su[0]], abg[su[1]]
-			variants = append(variants, bcVariant{name: "xref " + rname + "->" + sIn.Pkg + " (unrelated " + uIn.Pkg + ")", passes: "xref-" + rname + "-" + sIn.Pkg + ".yaml",
-				bases: [][]int{{0, 2}, {2, 0}}, unrelated: 1, needs: map[int]int{2: 0},
-				ins: []input{sIn, uIn, {"jsonschema", "z.json", rname, ""}}})
+		for i := range pkgNames {
+			for j := range pkgNames {
+				if i == j {
+					continue
+				}
+				u := 3 - i - j
+				variants = append(variants, bcVariant{name: "xref " + pkgNames[i] + "->" + pkgNames[j] + tsuffix, passes: "xref-" + pkgNames[i] + "-" + pkgNames[j] + suffix + ".yaml",
+					bases: [][]int{{j, i}, {i, j}}, unrelated: u, needs: map[int]int{i: j}, ins: abg})
+			}
+		}
+		// the referring package has no object of that name (so nothing forces another name on the
+		// copy it gets) and sorts before / after the two others; the unrelated package has one
+		for _, rname := range []string{"aardvark", "zeta"} {
+			for _, su := range [][2]int{{0, 2}, {2, 0}} {
+				sIn, uIn := abg[su[0]], abg[su[1]]
+				variants = append(variants, bcVariant{name: "xref " + rname + "->" + sIn.Pkg + tsuffix + " (unrelated " + uIn.Pkg + ")", passes: "xref-" + rname + "-" + sIn.Pkg + suffix + ".yaml",
+					bases: [][]int{{0, 2}, {2, 0}}, unrelated: 1, needs: map[int]int{2: 0},
+					ins: []input{sIn, uIn, {"jsonschema", "z.json", rname, ""}}})
+			}
 		}
 	}
 	for _, variant := range variants {
@@ -561,7 +569,15 @@ func main() {
 	}
 
 	// ---- (d) same-package inputs merge to the union or fail ------------------------------------
-	partD(r, dir, samples, counts)
+	partD(r, dir, samples, counts, "", map[string]map[int]string{
+		"X": {1: `{"type":"object","properties":{"a":{"type":"string"}}}`, 2: `{"type":"object","properties":{"a":{"type":"integer"}}}`},
+		"Y": {1: `{"type":"string","enum":["p","q"]}`, 2: `{"type":"string","enum":["p","r"]}`},
+	})
+	// definitions that differ in the TYPE of their values only (same printed form)
+	partD(r, dir, samples, counts, " [same rendering]", map[string]map[int]string{
+		"X": {1: `{"type":"integer","enum":[1,2,3]}`, 2: `{"type":"string","enum":["1","2","3"]}`},
+		"Y": {1: `{"type":"string","const":"1"}`, 2: `{"type":"integer","const":1}`},
+	})
 
 	// ---- (e) transformation chains never modify the schemas they are handed ----------------------
 	partE(r, samples, counts)
@@ -626,11 +642,7 @@ func loadOnly(dir string, ins []input) (map[string]string, string, string) {
 }
 
 // partD: two inputs contributing to package "m": object X and Y each absent / v1 / v2 in each input.
-func partD(r *vx.Run, dir string, samples *vx.Samples, counts map[string]int) {
-	defs := map[string]map[int]string{
-		"X": {1: `{"type":"object","properties":{"a":{"type":"string"}}}`, 2: `{"type":"object","properties":{"a":{"type":"integer"}}}`},
-		"Y": {1: `{"type":"string","enum":["p","q"]}`, 2: `{"type":"string","enum":["p","r"]}`},
-	}
+func partD(r *vx.Run, dir string, samples *vx.Samples, counts map[string]int, tag string, defs map[string]map[int]string) {
 	mk := func(x, y int, root string) string {
 		var parts, props []string
 		if x > 0 {
@@ -669,7 +681,7 @@ func partD(r *vx.Run, dir string, samples *vx.Samples, counts map[string]int) {
 						os.WriteFile(filepath.Join(dir, "in", "m1.json"), []byte(mk(x1, y1, roots[0])), 0o644)
 						os.WriteFile(filepath.Join(dir, "in", "m2.json"), []byte(mk(x2, y2, roots[1])), 0o644)
 						merged, st, msg := loadOnly(dir, []input{{"jsonschema", "m1.json", "m", ""}, {"jsonschema", "m2.json", "m", ""}})
-						id := fmt.Sprintf("X%d%d Y%d%d roots=%s/%s", x1, x2, y1, y2, roots[0], roots[1])
+						id := fmt.Sprintf("X%d%d Y%d%d roots=%s/%s%s", x1, x2, y1, y2, roots[0], roots[1], tag)
 						size := x1 + x2 + y1 + y2 + len(roots[0]) + len(roots[1])
 						detail := map[string]any{"part": "d", "case": id}
 						if st == "panic" {
